@@ -211,6 +211,9 @@ class CodeBlock(Statement):
 
         for stmt in stmts:
             if isinstance(stmt, CodeBlock):
+                # keep the statements bound to the nested block
+                # (for example the test expression of an if statement with constant result)
+                self._stmts.extend(stmt.bound_statements())
                 self._stmts.extend(stmt.statements())
             else:
                 self._stmts.append(stmt)
